@@ -58,6 +58,13 @@ def o_geo(case):
     t.compute_local_xy(rlat, rlon)
     if (t.x, t.y) != (x, y):
         return fail("C17/tower-local-xy", "TowerConfig.compute_local_xy is not latlon_to_xy with the reference origin", None, [x, y], [t.x, t.y], 0)
+    # ... and a configuration built from a dictionary places its towers the same way, whatever the origin
+    from bldfm.config_parser import parse_config_dict
+    cfg = parse_config_dict(dict(domain=dict(nx=4, ny=4, xmax=10.0, ymax=10.0, nz=3, ref_lat=rlat, ref_lon=rlon),
+                                 towers=[dict(name="t", lat=float(lat), lon=float(lon), z_m=2.0)], met=dict(ustar=0.3)))
+    if (cfg.towers[0].x, cfg.towers[0].y) != (x, y):
+        return fail("C17/config-tower-xy", "a configuration does not convert its tower's lat/lon to local coordinates with the domain's reference origin",
+                    None, [x, y], [cfg.towers[0].x, cfg.towers[0].y], 0)
     return None
 
 
@@ -67,14 +74,16 @@ def run(rng, tier, deep):
     st = new_stats()
     items = []
     for _ in range(budget(tier, deep, 150, 2000)):
-        rlat, rlon = float(rng.uniform(-60, 60)), float(rng.uniform(-180, 180))
+        rlat = float(rng.choice([rng.uniform(-60, 60), 0.0, rng.uniform(-0.02, 0.02)], p=[0.7, 0.1, 0.2]))
+        rlon = float(rng.choice([rng.uniform(-180, 180), 0.0, rng.uniform(-0.03, 0.03)], p=[0.7, 0.1, 0.2]))
         lat, lon = rlat + float(rng.normal() * 0.03), rlon + float(rng.normal() * 0.05)
         items.append((op_line("ll2xy", lat, lon, rlat, rlon), ("ok", np.array(latlon_to_xy(lat, lon, rlat, rlon)))))
         x, y = float(rng.normal() * 3000), float(rng.normal() * 3000)
         items.append((op_line("xy2ll", x, y, rlat, rlon), ("ok", np.array(xy_to_latlon(x, y, rlat, rlon), dtype=float))))
     correspond_scalar(items, st, tol=1e-13)
     for _ in range(budget(tier, deep, 300, 5000)):
-        case = dict(ref_lat=float(rng.uniform(-60, 60)), ref_lon=float(rng.uniform(-180, 180)),
+        case = dict(ref_lat=float(rng.choice([rng.uniform(-60, 60), 0.0, rng.uniform(-0.02, 0.02)], p=[0.7, 0.1, 0.2])),
+                    ref_lon=float(rng.choice([rng.uniform(-180, 180), 0.0, rng.uniform(-0.03, 0.03), 179.99, -179.99], p=[0.6, 0.1, 0.2, 0.05, 0.05])),
                     dist=float(rng.choice([rng.uniform(1, 5000), rng.uniform(4000, 5000), 5000.0])), bearing=float(rng.uniform(0, 360)))
         run_oracle(st, o_geo, case)
     return finish(st, "reference points |lat| <= 60, any lon, offsets up to 5 km in any direction; correspondence of both transforms "
